@@ -34,6 +34,10 @@ ChansSmall  == <<0, 2>>
 ClocksTiny  == <<0, 48000>>
 
 \* ---- the descriptor domain ----------------------------------------------------------------
+\* Besides well-formed lines, every family has (a) parameters WITHOUT a value or with an EMPTY value
+\* ("useinbandfec", "useinbandfec=", "apt", "packetization-mode=") next to the same key with a value,
+\* and (b) for H264, profile-level-id values that are not well-formed hex as a whole but share their
+\* first four hex digits with a well-formed one (odd length, non-hex tail, mixed case, empty, short).
 LinesH264 == << "",
   "packetization-mode=1;profile-level-id=42e01f",
   "profile-level-id=42e01f;packetization-mode=1",
@@ -47,15 +51,29 @@ LinesH264 == << "",
   "packetization-mode=1;profile-level-id=zz",
   "packetization-mode=1;profile-level-id=42e",
   "packetization-mode=1;profile-level-id=42",
-  "packetization-mode=1;profile-level-id=42e01f;profile-level-id=640032" >>
-LinesVP9  == << "", "profile-id=0", "profile-id=1", "PROFILE-ID=1", "profile-id=2;x=1", "profile-id", "x=1" >>
-LinesAV1  == << "", "profile=0", "profile=1", "PROFILE=1", "profile=0;level-idx=5", "level-idx=5" >>
-LinesVP8  == << "", "x=AbC", "x=abc", "x=1;y=2", "y=3; X=abc" >>
+  "packetization-mode=1;profile-level-id=42e01f;profile-level-id=640032",
+  \* (b) malformed as a whole, first four digits 42e0 / 4200 / 6400
+  "packetization-mode=1;profile-level-id=42e01",
+  "packetization-mode=1;profile-level-id=42e01f0",
+  "packetization-mode=1;profile-level-id=42E0zz",
+  "packetization-mode=1;profile-level-id=42e0",
+  "packetization-mode=1;profile-level-id=42E01f",
+  "level-asymmetry-allowed=1;packetization-mode=1;profile-level-id=4200 1f",
+  "packetization-mode=1;profile-level-id=6400zz32",
+  "packetization-mode=1;profile-level-id=",
+  "packetization-mode=1;profile-level-id",
+  \* (a) packetization-mode without a value / empty
+  "packetization-mode=;profile-level-id=42e01f",
+  "packetization-mode;profile-level-id=42e01f" >>
+LinesVP9  == << "", "profile-id=0", "profile-id=1", "PROFILE-ID=1", "profile-id=2;x=1", "profile-id", "profile-id=", "x=1" >>
+LinesAV1  == << "", "profile=0", "profile=1", "PROFILE=1", "profile=0;level-idx=5", "level-idx=5", "profile", "profile=" >>
+LinesVP8  == << "", "x=AbC", "x=abc", "x=1;y=2", "y=3; X=abc", "x", "x=", "x;y=2" >>
 LinesOpus == << "", "minptime=10;useinbandfec=1", "minptime=10;useinbandfec=0",
-                "MINPTIME=10; UseInbandFec=1", "useinbandfec=1" >>
-LinesPCMU == << "", "x=1" >>
-LinesRTX  == << "", "apt=96", "apt=97", "APT=96" >>
-LinesFoo  == << "", "x=abc", "profile-id=1;packetization-mode=1" >>
+                "MINPTIME=10; UseInbandFec=1", "useinbandfec=1",
+                "useinbandfec", "useinbandfec=", "minptime=10;useinbandfec", "minptime=;useinbandfec=1" >>
+LinesPCMU == << "", "x=1", "x" >>
+LinesRTX  == << "", "apt=96", "apt=97", "APT=96", "apt", "apt=" >>
+LinesFoo  == << "", "x=abc", "profile-id=1;packetization-mode=1", "x=", "profile-id;packetization-mode=" >>
 
 Families == <<
   [mimes |-> <<"video/H264", "video/h264", "VIDEO/H264">>, lines |-> LinesH264],
